@@ -122,7 +122,9 @@ func (api *NodehostAPI) supportRegularSession(shardID uint64) (bool, error) {
 		return false, errors.New("stopped")
 	}
 	for _, ci := range nhi.ShardInfoList {
-		api.supportCS[shardID] = ci.StateMachineType != sm.OnDiskStateMachine
+		if ci.ShardID == shardID {
+			api.supportCS[shardID] = ci.StateMachineType != sm.OnDiskStateMachine
+		}
 	}
 	v, ok = api.supportCS[shardID]
 	if ok {
